@@ -207,14 +207,6 @@ def encode_update(c, recipe, upd):
     return flat if kind == "list" else tuple(flat) if kind == "tuple" else np.array(flat)
 
 
-def update_code(recipe, upd, obj):
-    if upd["fmt"] == "dict":
-        pos = {}
-        # keys are gate objects: recover their queue positions for the snippet
-        return "c.set_parameters({" + ", ".join(f"c.queue[{i}]: {pyrepr(v)}" for i, v in obj) + "})\n"
-    return f"c.set_parameters({pyrepr(obj)})\n"
-
-
 def applied_values(recipe, cur, upd):
     """values of every gate after the update (dict updates may set a subset)."""
     new = dict(cur)
@@ -864,8 +856,6 @@ def run_scenario(n, recipe, updates, stop_view=None):
         cur = applied_values(recipe, cur, upd)
         f = build(n, recipe, cur)
         for name, vc, vf, phase in VIEWS:
-            if stop_view is not None and (k, name) != stop_view and k == stop_view[0] and False:
-                continue
             ra = N["run_view"](N[vc], c)
             rb = N["run_view"](N[vf], f)
             if not N["agree"](ra, rb, phase):
